@@ -23,8 +23,13 @@
      kinetic_integral_rotation_law  the same sentence for kinetic_integral
      evaluate_basis_rotation_law    sum_{a'} W_i[a, a'] * (row gidx(i, m, a') of evaluate_basis_model of the rotated
                                     basis at the rotated points)[p] = (row gidx(i, m, a) of the original)[p]
-     density_rotation_invariant     with P = W^T P' W (entry-wise over gidx), sum_IJ P'_IJ phi'_I(R r) phi'_J(R r)
-                                    = sum_IJ P_IJ phi_I(r) phi_J(r)   (bilinear form over evaluate_basis_model rows)
+     density_rotation_invariant     with P' = W^T P W (block-wise over gidx, [rot_density]),
+                                    sum_IJ P'_IJ phi'_I(R r) phi'_J(R r) = sum_IJ P_IJ phi_I(r) phi_J(r)
+                                    (bilinear form over evaluate_basis_model rows; the sums enumerate the functions as
+                                    (shell, segment, component) = every position below btotal once, [bsum]).
+                                    NOT YET: the same sentence for Model/Density's evaluate_density function itself
+                                    (needs the reindexing sum_{I < btotal} f I = bsum (f o gidx) and the unfolding of
+                                    the density model into this bilinear form).
    Hypotheses: R orthogonal; fapx = id; exp(x + y) = exp x exp y (two-index laws only); 1 + 1 <> 0; dfnorm <> 0;
    one coefficient row per exponent; exponent sums non-zero; norm_cont entries non-zero (they are divided by). *)
 From Coq Require Import List Arith Lia Field Bool.
@@ -475,6 +480,131 @@ Qed.
 End Basis.
 
 End RotAsm.
+
+(* ------------------------------------------------------------------ *)
+(* 5. the density bilinear form                                         *)
+(* ------------------------------------------------------------------ *)
+Section Density.
+Context {F : Type} (K : Fops F) (Kf : is_field K).
+Add Field KFrdens : Kf.
+Local Open Scope F_scope.
+Notation "0" := (f0 K) : F_scope.
+Infix "+" := (fadd K) : F_scope.
+Infix "*" := (fmul K) : F_scope.
+Notation fsum := (FNum.fsum K).
+Hypothesis Hapx : forall x : F, fapx K x = x.
+Hypothesis Hdf : forall c, dfnorm K c <> 0.
+Variable R : @mat3 F.
+Hypothesis HO : orthogonal K R.
+Variable bs : list (shell F).
+Hypothesis OK : rot_basis_ok K bs.
+Hypothesis Hn : ncont_nonzero K bs.
+Variable pts : list (point (F:=F)).
+Notation s_ k := (sh_at K bs k).
+Notation g_ := (gidx K bs).
+
+(* sum over all functions of the basis, enumerated as (shell, segment, component); by gidx_surj / gidx_inj every
+   position below btotal occurs exactly once *)
+Definition bsum (f : nat -> nat -> nat -> F) : F :=
+  fsum (mk (length bs) (fun i => fsum (mk (nseg (s_ i)) (fun m => fsum (mk (ncd (s_l (s_ i))) (fun a => f i m a)))))).
+
+Lemma bsum_ext f g :
+  (forall i m a, (i < length bs)%nat -> (m < nseg (s_ i))%nat -> (a < ncd (s_l (s_ i)))%nat -> f i m a = g i m a) ->
+  bsum f = bsum g.
+Proof.
+  intros H. unfold bsum. apply fsum_mk_ext; intros i Hi. apply fsum_mk_ext; intros m Hm.
+  apply fsum_mk_ext; intros a Ha. now apply H.
+Qed.
+Lemma bsum_scale_l c f : c * bsum f = bsum (fun i m a => c * f i m a).
+Proof.
+  unfold bsum. rewrite (fsum_mk_scale_l K Kf). apply fsum_mk_ext; intros i _.
+  rewrite (fsum_mk_scale_l K Kf). apply fsum_mk_ext; intros m _. now rewrite (fsum_mk_scale_l K Kf).
+Qed.
+Lemma bsum_swap_fsum n (f : nat -> nat -> nat -> nat -> F) :
+  fsum (mk n (fun a => bsum (f a))) = bsum (fun i m b => fsum (mk n (fun a => f a i m b))).
+Proof.
+  unfold bsum. rewrite (fsum_mk_swap K Kf). apply fsum_mk_ext; intros i _.
+  rewrite (fsum_mk_swap K Kf). apply fsum_mk_ext; intros m _. now rewrite (fsum_mk_swap K Kf).
+Qed.
+
+Section Point.
+Variable p : nat.
+Hypothesis Hp : (p < length pts)%nat.
+Let phi (I : nat) : F := nth p (nth I (evaluate_basis_model K bs pts None) []) 0.
+Let phi' (I : nat) : F :=
+  nth p (nth I (evaluate_basis_model K (rot_basis K R bs) (map (mapply K R) pts) None) []) 0.
+
+Lemma phi_rot i m a : (i < length bs)%nat -> (m < nseg (s_ i))%nat -> (a < ncd (s_l (s_ i)))%nat ->
+  phi (g_ i m a) = fsum (mk (ncd (s_l (s_ i))) (fun a' => wrot K R (s_ i) m a a' * phi' (g_ i m a'))).
+Proof.
+  intros Hi Hm Ha. symmetry.
+  exact (evaluate_basis_rotation_law K Kf Hapx Hdf R HO bs OK pts Hn i m a p Hi Hm Ha Hp).
+Qed.
+
+(* one index: sum_I g_I phi_I = sum_I' (sum_a g_(i,m,a) W[a,a']) phi'_I' *)
+Lemma transfer (g : nat -> nat -> nat -> F) :
+  bsum (fun i m a => g i m a * phi (g_ i m a))
+  = bsum (fun i m a' => fsum (mk (ncd (s_l (s_ i))) (fun a => g i m a * wrot K R (s_ i) m a a')) * phi' (g_ i m a')).
+Proof.
+  unfold bsum. apply fsum_mk_ext; intros i Hi. apply fsum_mk_ext; intros m Hm.
+  transitivity (fsum (mk (ncd (s_l (s_ i))) (fun a => fsum (mk (ncd (s_l (s_ i))) (fun a' =>
+                  g i m a * wrot K R (s_ i) m a a' * phi' (g_ i m a')))))).
+  { apply fsum_mk_ext; intros a Ha. rewrite (phi_rot i m a Hi Hm Ha), (fsum_mk_scale_l K Kf).
+    apply fsum_mk_ext; intros a' _. ring. }
+  rewrite (fsum_mk_swap K Kf). apply fsum_mk_ext; intros a' _.
+  now rewrite (fsum_mk_scale_r K Kf).
+Qed.
+
+(* the density matrix of the rotated basis: P' = W^T P W, block-wise *)
+Definition rot_density (P : nat -> nat -> F) (i m a' j m' b' : nat) : F :=
+  fsum (mk (ncd (s_l (s_ i))) (fun a => fsum (mk (ncd (s_l (s_ j))) (fun b =>
+    wrot K R (s_ i) m a a' * P (g_ i m a) (g_ j m' b) * wrot K R (s_ j) m' b b')))).
+
+Theorem density_rotation_invariant_at (P : nat -> nat -> F) :
+  bsum (fun i m a' => bsum (fun j m' b' =>
+    rot_density P i m a' j m' b' * phi' (g_ i m a') * phi' (g_ j m' b')))
+  = bsum (fun i m a => bsum (fun j m' b => P (g_ i m a) (g_ j m' b) * phi (g_ i m a) * phi (g_ j m' b))).
+Proof.
+  symmetry.
+  transitivity (bsum (fun i m a => bsum (fun j m' b' =>
+     fsum (mk (ncd (s_l (s_ j))) (fun b => P (g_ i m a) (g_ j m' b) * wrot K R (s_ j) m' b b')) * phi' (g_ j m' b'))
+     * phi (g_ i m a))).
+  { apply bsum_ext; intros i m a _ _ _. rewrite <- (transfer (fun j m' b => P (g_ i m a) (g_ j m' b))).
+    transitivity (phi (g_ i m a) * bsum (fun j m' b => P (g_ i m a) (g_ j m' b) * phi (g_ j m' b))); [|ring].
+    rewrite bsum_scale_l. apply bsum_ext; intros j m' b _ _ _. ring. }
+  rewrite (transfer (fun i m a => bsum (fun j m' b' =>
+     fsum (mk (ncd (s_l (s_ j))) (fun b => P (g_ i m a) (g_ j m' b) * wrot K R (s_ j) m' b b')) * phi' (g_ j m' b')))).
+  apply bsum_ext; intros i m a' _ _ _.
+  rewrite (fsum_mk_scale_r K Kf).
+  transitivity (fsum (mk (ncd (s_l (s_ i))) (fun a => bsum (fun j m' b' =>
+     (wrot K R (s_ i) m a a' * phi' (g_ i m a'))
+     * (fsum (mk (ncd (s_l (s_ j))) (fun b => P (g_ i m a) (g_ j m' b) * wrot K R (s_ j) m' b b')) * phi' (g_ j m' b')))))).
+  { apply fsum_mk_ext; intros a _. rewrite <- bsum_scale_l. ring. }
+  rewrite bsum_swap_fsum. apply bsum_ext; intros j m' b' _ _ _.
+  unfold rot_density.
+  transitivity (fsum (mk (ncd (s_l (s_ i))) (fun a => fsum (mk (ncd (s_l (s_ j))) (fun b =>
+      wrot K R (s_ i) m a a' * P (g_ i m a) (g_ j m' b) * wrot K R (s_ j) m' b b'))))
+    * (phi' (g_ i m a') * phi' (g_ j m' b'))); [|ring].
+  rewrite (fsum_mk_scale_r K Kf). apply fsum_mk_ext; intros a _.
+  transitivity ((wrot K R (s_ i) m a a' * (phi' (g_ i m a') * phi' (g_ j m' b')))
+                * fsum (mk (ncd (s_l (s_ j))) (fun b => P (g_ i m a) (g_ j m' b) * wrot K R (s_ j) m' b b')));
+    [ring|].
+  rewrite (fsum_mk_scale_l K Kf), (fsum_mk_scale_r K Kf). apply fsum_mk_ext; intros b _. ring.
+Qed.
+End Point.
+
+(* density_rotation_invariant: at every point r_p, with P' = W^T P W,
+     sum_{I', J'} P'_{I'J'} phi'_{I'}(R r_p) phi'_{J'}(R r_p) = sum_{I, J} P_{IJ} phi_I(r_p) phi_J(r_p),
+   phi, phi' the rows of evaluate_basis_model of the basis at the points / of the rotated basis at the rotated points *)
+Theorem density_rotation_invariant (P : nat -> nat -> F) p : (p < length pts)%nat ->
+  let E := evaluate_basis_model K bs pts None in
+  let E' := evaluate_basis_model K (rot_basis K R bs) (map (mapply K R) pts) None in
+  bsum (fun i m a' => bsum (fun j m' b' =>
+    rot_density P i m a' j m' b' * nth p (nth (g_ i m a') E' []) 0 * nth p (nth (g_ j m' b') E' []) 0))
+  = bsum (fun i m a => bsum (fun j m' b =>
+    P (g_ i m a) (g_ j m' b) * nth p (nth (g_ i m a) E []) 0 * nth p (nth (g_ j m' b) E []) 0)).
+Proof. intros Hp. exact (density_rotation_invariant_at p Hp P). Qed.
+End Density.
 
 (* ------------------------------------------------------------------ *)
 (* Examples over Qc: an s + p (2 primitives, 2 segments) + d basis, the 3-4-5 rotation and an improper rotation.
